@@ -18,6 +18,7 @@ import (
 
 func init() {
 	vfRegister("VfC17_hasResult", VfC17_hasResult)
+	vfRegister("VfC17_hasResultSession", VfC17_hasResultSession)
 	vfRegister("VfC17_hasResultsCache", VfC17_hasResultsCache)
 	vfRegister("VfC17_hasResultsCache2", VfC17_hasResultsCache2)
 	vfRegister("VfC17_getResponseHasEntries", VfC17_getResponseHasEntries)
@@ -68,6 +69,13 @@ type vfRes struct {
 	num       uint64
 	pfx       string
 	serverErr string
+	// session-level results: 0 = field absent, 1 = present with the zero value (status OK / election id 0,0),
+	// 2 = present with another value
+	sess       int
+	sessStatus spb.SessionParametersResult_Status
+	elec       int
+	elecHi     uint64
+	elecLo     uint64
 }
 
 func (d *vfRes) result() *client.OpResult {
@@ -88,7 +96,30 @@ func (d *vfRes) result() *client.OpResult {
 		}
 		r.Details = det
 	}
+	if d.sess > 0 {
+		r.SessionParameters = &spb.SessionParametersResult{Status: d.sessStatus}
+	}
+	if d.elec > 0 {
+		r.CurrentServerElectionID = &spb.Uint128{High: d.elecHi, Low: d.elecLo}
+	}
 	return r
+}
+
+// vfSymResS: a session-level result (no operation details): optional session-parameters result and optional
+// election id, each absent / present with its zero value / present with another value.
+func vfSymResS(name string) *vfRes {
+	d := &vfRes{id: vfU64(name + ".id")}
+	d.status = spb.AFTResult_Status(vfIte32(vfBool(name+".programmed"), uint32(spb.AFTResult_RIB_PROGRAMMED), uint32(spb.AFTResult_UNSET)))
+	d.serverErr = vfIteStr(vfBool(name+".serverError"), "failed", "")
+	d.sess = vfInt(name+".sess", 0, 2)
+	if d.sess == 2 {
+		d.sessStatus = spb.SessionParametersResult_Status(1)
+	}
+	d.elec = vfInt(name+".elec", 0, 2)
+	if d.elec == 2 {
+		d.elecHi, d.elecLo = vfU64(name+".elec.hi"), vfU64(name+".elec.lo")
+	}
+	return d
 }
 
 func vfSymRes(name string, kinds []int) *vfRes {
@@ -121,6 +152,15 @@ func vfMatches(r, w *vfRes, ignoreID, includeServerErr bool) bool {
 	}
 	if includeServerErr {
 		ok = vfAnd(ok, r.serverErr == w.serverErr)
+	}
+	if (r.sess > 0) != (w.sess > 0) || (r.elec > 0) != (w.elec > 0) {
+		return false // a message field that is present never equals one that is absent
+	}
+	if w.sess > 0 {
+		ok = vfAnd(ok, r.sessStatus == w.sessStatus)
+	}
+	if w.elec > 0 {
+		ok = vfAnd(ok, vfAnd(r.elecHi == w.elecHi, r.elecLo == w.elecLo))
 	}
 	if w.hasDet {
 		if !r.hasDet || r.kind != w.kind {
@@ -163,6 +203,33 @@ func VfC17_hasResult() {
 		present = vfOr(present, vfMatches(d, w, ignoreID, includeSE))
 	}
 	vfAssert(failed == !present, "C17:HasResult-fails-iff-wanted-result-absent")
+	vfReach("end")
+}
+
+// VfC17_hasResultSession: session-level results (session-parameters result, election id) - absent, present with
+// the zero value, present with another value - on the wanted result and on 0-1 received results: HasResult fails
+// exactly when no result matches, and the cached checker never passes where it fails.
+func VfC17_hasResultSession() {
+	n := vfInt("n", 0, 1)
+	var ds []*vfRes
+	var res []*client.OpResult
+	for i := 0; i < n; i++ {
+		d := vfSymResS("r")
+		ds = append(ds, d)
+		res = append(res, d.result())
+	}
+	w := vfSymResS("want")
+	opts, ignoreID, includeSE := vfOptions()
+	failed := vfFails(func(t testing.TB) { HasResult(t, res, w.result(), opts...) })
+	present := false
+	for _, d := range ds {
+		present = vfOr(present, vfMatches(d, w, ignoreID, includeSE))
+	}
+	vfAssert(failed == !present, "C17:HasResult-fails-iff-wanted-result-absent")
+	if !ignoreID {
+		cacheFailed := vfFails(func(t testing.TB) { HasResultsCache(t, res, []*client.OpResult{w.result()}, opts...) })
+		vfAssert(vfImplies(!cacheFailed, present), "C17:HasResultsCache-never-passes-for-an-absent-result")
+	}
 	vfReach("end")
 }
 
